@@ -340,7 +340,8 @@ UnitRsp(p, i) ==
 
 \* ------------------------------------------------------------------ MC next
 NextId == Cardinality(DOMAIN reqs) + 1
-NumCmd == Cardinality({i \in DOMAIN reqs : ~IsHS(reqs[i].k)})
+NumHS == IF nHS = 0 THEN 0 ELSE (nHS - 1) * Len(HSScript) + (IF hsPos = 0 THEN Len(HSScript) ELSE hsPos)
+NumCmd == Cardinality(DOMAIN reqs) - NumHS    \* requests of the command stream (any kind in CmdKinds)
 OpenKinds == {reqs[i].k : i \in {j \in DOMAIN reqs : \A n \in 1..Len(rsps) : rsps[n].id # j}}
 Conflicts(k) == \/ (k = "flush" /\ OpenKinds \cap {"shoot", "restart"} # {})
                 \/ (k \in {"shoot", "restart"} /\ "flush" \in OpenKinds)
